@@ -114,7 +114,7 @@ def check(ctx, src):
                                                              and any(kk.arg == "value" and isinstance(kk.value, ast.Constant) and kk.value.value is None for kk in k.value.keywords) for k in c.keywords)]
     mt = [st for st in ast.walk(m) if isinstance(st, ast.Call) and dotted(st.func) == "asty.Match"]
     ctx.need(len(mt) == 1, "compile_match_expression: the Match construction was not found")
-    uncond = [c for c in inits if not pyq.guards(c, m)]
+    uncond = [c for c in inits if not pyq.guards(c, m, siblings=False)]
     ctx.decide("MATCH-RESULT", f"{R}|compile_match_expression|init-none", None if not inits else bool(uncond) and all((c.lineno, c.col_offset) < (mt[0].lineno, mt[0].col_offset) for c in uncond),
                "the result variable is not set to None unconditionally before the Match (when no case matches, the form must return None)" + (f"; it is initialised only under `{[str(a) for a in pyq.atoms(inits[0], m)]}`" if inits and not uncond else ""), R, m.lineno,
                witness="(match 5 None 1) raises NameError; (setv r 0) (setv r (match 5 None 1)) keeps 0", detail="ret += Assign(return_var, None) at top level before Match")
